@@ -453,6 +453,56 @@ def rule_x(F):
     return res
 
 
+LOSSY_ADAPTERS = ("filter_map", "filter", "take_while", "skip_while", "map_while", "take", "skip", "step_by")
+
+
+def rule_v(F):
+    """C02.V: the mark phase enumerates an object's children through complete views only. A traversal helper that drops
+    elements (filter_map over a lookup, filter, take ..) can skip children that the object still hands out: the collector
+    then frees objects that for-each / nth-row / keys() still return."""
+    from cao.facts import hir_walk, hir_callee, pat_variants
+    res = []
+    gc = F.fn("vm::runtime::RuntimeData::gc")
+    arms = None
+    for x in hir_walk(gc.hir["body"]):
+        if x.get("k") == "match" and len(x["arms"]) >= 4 and any("CaoLangObjectBody" in n for a in x["arms"] for n, _s, _p in pat_variants(a["pat"])):
+            arms = x["arms"]
+    if arms is None:
+        raise AnchorMissing("match on CaoLangObjectBody in the mark loop of gc")
+    n = 0
+    for a in arms:
+        names = [nm.rsplit("::", 1)[-1] for nm, _s, _p in pat_variants(a["pat"]) if "::" in nm]
+        calls = [y for y in hir_walk(a["body"]) if y.get("k") == "mcall"]
+        trav = []
+        for y in calls:
+            for cn in hir_callee(y):
+                g = F.fn(cn, required=False)
+                if g is not None and g.hir is not None and cn.startswith(("vm::runtime::", "collections::")):
+                    # an adapter drops elements *the object still holds* when its predicate depends on a lookup by value
+                    # (selecting the occupied slots of a slot array is a complete view of the entries)
+                    lossy = [z["name"] for z in hir_walk(g.hir["body"]) if z.get("k") == "mcall" and z["name"] in LOSSY_ADAPTERS
+                             and any(c.startswith("std::iter::Iterator::") for c in hir_callee(z))
+                             and any(w.get("k") == "mcall" and w["name"] in ("get", "get_mut", "contains", "contains_key", "get_with_hint")
+                                     for a_ in z["args"] for w in hir_walk(a_))]
+                    trav.append((cn, lossy, y.get("ln")))
+        if not trav:
+            continue
+        n += 1
+        key = "C02/V/%s/children-enumerated-through-complete-views" % "+".join(names)
+        bad_t = [(cn, l, ln) for cn, l, ln in trav if l]
+        if bad_t:
+            cn, l, ln = bad_t[0]
+            res.append(bad("C02.V", key, gc.loc(ln),
+                           "the %s arm of the mark loop walks the object through %s, which drops elements (%s): children it skips are swept "
+                           "although the object still refers to them (a table row whose key was mutated after insertion, a NaN key)"
+                           % ("/".join(names), short(cn), ", ".join(l))))
+        else:
+            res.append(ok("C02.V", key, gc.loc(trav[0][2]), "traversals used: %s" % ", ".join(sorted(set(short(cn).rsplit("::", 2)[-2] + "::" + short(cn).rsplit("::", 1)[-1] for cn, _l, _ln in trav)))))
+    if n < 1:
+        raise AnchorMissing("traversal calls in the mark loop")
+    return res
+
+
 def rule_k(F):
     """C02.K: the collector never overwrites the Protected marker. Every store to `<obj>.marker` in RuntimeData::gc lies
     under a test of the same object's marker that excludes Protected (`if !matches!(m, Protected)`,
@@ -664,6 +714,7 @@ def _arity(path):
 
 
 RULES = [
+    Rule("C02.V", rule_v, 1, "the mark phase enumerates children through complete views"),
     Rule("C02.K", rule_k, 9, "the collector never overwrites the Protected marker"),
     Rule("C02.Roots", rule_roots, 7, "gc's root set covers every reference-bearing field of RuntimeData/CallFrame"),
     Rule("C02.M", rule_m, 6, "the mark loop follows every reference-bearing field of every object kind"),
